@@ -1,6 +1,7 @@
 package gossipval
 
 import (
+	"bufio"
 	"bytes"
 	"context"
 	"encoding/hex"
@@ -14,9 +15,11 @@ import (
 	"sort"
 	"strings"
 	"sync"
+	"syscall"
 	"time"
 
 	obskprdb "github.com/shutter-network/rolling-shutter/rolling-shutter/chainobserver/db/keyper"
+	"github.com/shutter-network/rolling-shutter/rolling-shutter/trace"
 
 	"verif/harness/core"
 	"verif/harness/ev"
@@ -131,7 +134,7 @@ func (w *World) c05Data(d delivery) []byte {
 		return d.data
 	}
 	msg := w.BuildC05(d.cs.Fl, d.cs.M, d.cs.Instv)
-	env := EnvelopeVersioned(msg, VersionString(d.cs.Ver))
+	env := EnvelopeFull(msg, VersionString(d.cs.Ver), TraceContextOf(d.cs.Trace))
 	return MutateBytes(d.cs.Bytes, msg, env, rand.New(rand.NewSource(caseSeed(w.Seed, d.cs.Raw, d.rep))))
 }
 
@@ -205,6 +208,13 @@ func runC05(ctx context.Context, w *World, st *C05States, ds []delivery, workers
 
 // runC05Mode: publishFails = delivery mode "send" (node assemblies on a P2PNode whose Publish fails).
 func runC05Mode(ctx context.Context, w *World, st *C05States, ds []delivery, workers int, measure bool, publishFails bool) ([]c05Result, error) {
+	return runC05Hooked(ctx, w, st, ds, workers, measure, publishFails, nil, nil)
+}
+
+// runC05Hooked executes the deliveries in this process; onStart / onDone (optional) are called
+// around every delivery (the worker child reports its progress through them).
+func runC05Hooked(ctx context.Context, w *World, st *C05States, ds []delivery, workers int, measure bool, publishFails bool,
+	onStart func(i int), onDone func(i int, r c05Result)) ([]c05Result, error) {
 	if len(ds) == 0 {
 		return nil, nil
 	}
@@ -292,6 +302,9 @@ func runC05Mode(ctx context.Context, w *World, st *C05States, ds []delivery, wor
 						fail(err)
 						return
 					}
+					if onStart != nil {
+						onStart(i)
+					}
 					r := deliverC05(ctx, w, n, d, measure)
 					if isCrash(r.obs) {
 						drop(d.cs.Fl, d.cs.Recv) // connections / state of that node may be lost
@@ -313,6 +326,9 @@ func runC05Mode(ctx context.Context, w *World, st *C05States, ds []delivery, wor
 						}
 					}
 					res[i] = r
+					if onDone != nil {
+						onDone(i, r)
+					}
 					if n.PG != nil {
 						if pm := n.PG.PinMismatches(); len(pm) > 0 {
 							fail(fmt.Errorf("fakepg pin mismatches: %v", pm))
@@ -396,7 +412,6 @@ func CheckC05(c *core.Ctx) int {
 	if c.Replay != "" {
 		return replayC05(c)
 	}
-	ctx := context.Background()
 	maxDev, reps, allocN := 2, 6, 3000
 	if c.Thorough() {
 		maxDev, reps, allocN = 3, 64, 60000
@@ -413,7 +428,6 @@ func CheckC05(c *core.Ctx) int {
 	}
 	c.Logf("TLC: %d states (%d distinct), %d cases printed, design violation=%q (%.1fs)", g.States, g.Distinct, len(g.Cases), g.SpecViol, g.Wall)
 	w := NewWorld(c.Seed)
-	st := NewC05States(w)
 	known := core.LoadKnown().For(c.Prop)
 	var ds []delivery
 	for _, kf := range known {
@@ -450,7 +464,7 @@ func CheckC05(c *core.Ctx) int {
 		workers = 12
 	}
 	t0 := time.Now()
-	rs, err := runC05(ctx, w, st, ds, workers, false)
+	rs, err := runChildren(c, w, ds, workers, childOpts{})
 	if err != nil {
 		fmt.Println("INCONCLUSIVE:", err)
 		return core.ExitInconclusive
@@ -458,7 +472,20 @@ func CheckC05(c *core.Ctx) int {
 	replayS := time.Since(t0).Seconds()
 	// delivery mode "send": the real P2PMessaging.handle incl. SendMessage on a node whose Publish fails
 	tS := time.Now()
-	srs, err := runC05Mode(ctx, w, st, sds, 4, false, true)
+	// (tracing is a process-wide switch: deliveries with tracing on run in children of their own)
+	sort.SliceStable(sds, func(i, j int) bool { return sds[i].cs.Tracing < sds[j].cs.Tracing })
+	nOff := 0
+	for _, d := range sds {
+		if d.cs.Tracing != "on" {
+			nOff++
+		}
+	}
+	srs, err := runChildren(c, w, sds[:nOff], 3, childOpts{publishFails: true})
+	if err == nil {
+		var on []c05Result
+		on, err = runChildren(c, w, sds[nOff:], 3, childOpts{publishFails: true, tracing: true})
+		srs = append(srs, on...)
+	}
 	if err != nil {
 		fmt.Println("INCONCLUSIVE:", err)
 		return core.ExitInconclusive
@@ -511,7 +538,7 @@ func CheckC05(c *core.Ctx) int {
 	}
 	t1 := time.Now()
 	runtime.GC()
-	ars, err := runC05(ctx, w, st, ads, 1, true)
+	ars, err := runChildren(c, w, ads, 1, childOpts{measure: true})
 	if err != nil {
 		fmt.Println("INCONCLUSIVE:", err)
 		return core.ExitInconclusive
@@ -687,14 +714,13 @@ func replayC05(c *core.Ctx) int {
 	cs.Raw = rf.Case
 	data, _ := hex.DecodeString(rf.DataHex)
 	w := NewWorld(rf.Seed)
-	st := NewC05States(w)
 	ds := []delivery{{cs: &cs, rep: rf.Rep, data: data}}
 	var rs []c05Result
 	if cs.Mode == "stress" {
 		ds[0].data = nil
 		rs, err = runStress(c, w, ds)
 	} else {
-		rs, err = runC05Mode(context.Background(), w, st, ds, 1, rf.Measure, cs.Mode == "send")
+		rs, err = runChildren(c, w, ds, 1, childOpts{measure: rf.Measure, publishFails: cs.Mode == "send", tracing: cs.Tracing == "on"})
 	}
 	if err != nil {
 		fmt.Println("INCONCLUSIVE:", err)
@@ -892,7 +918,8 @@ func tailOf(s string, n int) string {
 
 func fatalLine(stderr string) string {
 	for _, l := range strings.Split(stderr, "\n") {
-		if strings.HasPrefix(l, "fatal error:") || strings.HasPrefix(l, "panic:") {
+		if strings.HasPrefix(l, "fatal error:") || strings.HasPrefix(l, "panic:") || strings.HasPrefix(l, "SIG") ||
+			strings.HasPrefix(l, "[signal") || strings.HasPrefix(l, "unexpected fault") {
 			var frames []string
 			for _, m := range strings.Split(stderr, "\n") {
 				if strings.Contains(m, "rolling-shutter/rolling-shutter/") && strings.Contains(m, "(") && !strings.HasPrefix(strings.TrimSpace(m), "/") {
@@ -905,5 +932,266 @@ func fatalLine(stderr string) string {
 			return l + "\n" + strings.Join(frames, " | ")
 		}
 	}
-	return tailOf(stderr, 3)
+	if l := strings.Split(strings.TrimSpace(stderr), "\n"); len(l) > 0 && l[0] != "" {
+		return l[0]
+	}
+	return "(no output on stderr)"
+}
+
+// --- worker child processes -------------------------------------------------------------------
+//
+// Every delivery of C05 is executed in a child process of the check binary (vgossipval
+// __c05worker ...): a fatal signal (e.g. a nil pointer handed to cgo code), a fatal runtime error
+// or an os.Exit inside repository code kills the child, not the check; the parent reports the
+// delivery that was in flight as outcome "panic" and restarts a child for the rest.
+
+type workItem struct {
+	C    json.RawMessage `json:"c"`
+	Rep  int             `json:"rep"`
+	Data string          `json:"data,omitempty"` // replay: the exact bytes (hex)
+}
+
+type childOpts struct {
+	measure, publishFails, tracing bool
+}
+
+func (o childOpts) flags() string {
+	f := ""
+	for _, b := range []bool{o.measure, o.publishFails, o.tracing} {
+		if b {
+			f += "1"
+		} else {
+			f += "0"
+		}
+	}
+	return f
+}
+
+// WorkerChild: vgossipval __c05worker <seed> <file> <from> <to> <flags>. Prints "S i" before and
+// "R i v h len allocK" after every delivery (i = line of the file), "D i <hex detail>" for
+// outcomes with a detail, "E msg" on infrastructure errors.
+func WorkerChild(args []string) int {
+	if len(args) != 5 {
+		fmt.Println("E usage")
+		return 2
+	}
+	var seed int64
+	var from, to int
+	fmt.Sscan(args[0], &seed)
+	fmt.Sscan(args[2], &from)
+	fmt.Sscan(args[3], &to)
+	flags := args[4]
+	opt := childOpts{measure: flags[0] == '1', publishFails: flags[1] == '1', tracing: flags[2] == '1'}
+	f, err := os.Open(args[1])
+	if err != nil {
+		fmt.Println("E", err)
+		return 2
+	}
+	defer f.Close()
+	sc := bufio.NewScanner(f)
+	sc.Buffer(make([]byte, 1<<20), 1<<28)
+	var ds []delivery
+	for ln := 0; sc.Scan(); ln++ {
+		if ln < from {
+			continue
+		}
+		if ln >= to {
+			break
+		}
+		var it workItem
+		if err := json.Unmarshal(sc.Bytes(), &it); err != nil {
+			fmt.Println("E", err)
+			return 2
+		}
+		cs := new(CCase)
+		if err := json.Unmarshal(it.C, cs); err != nil {
+			fmt.Println("E", err)
+			return 2
+		}
+		cs.Raw = it.C
+		d := delivery{cs: cs, rep: it.Rep}
+		if it.Data != "" {
+			d.data, _ = hex.DecodeString(it.Data)
+		}
+		ds = append(ds, d)
+	}
+	if opt.tracing {
+		trace.SetEnabled() // the switch the tracing option of the commands flips
+	}
+	w := NewWorld(seed)
+	st := NewC05States(w)
+	out := bufio.NewWriter(os.Stdout)
+	_, err = runC05Hooked(context.Background(), w, st, ds, 1, opt.measure, opt.publishFails,
+		func(i int) {
+			fmt.Fprintf(out, "S %d\n", from+i)
+			out.Flush()
+			// binding self-test (never set in a normal run): the worker dies with a fatal signal during
+			// one delivery; the parent must report that delivery as a panic
+			if os.Getenv("VERIF_C05_SELFTEST") == "sigsegv" && ds[i].cs.Fl == "snapshot" && ds[i].cs.Topic == "trigger" &&
+				ds[i].cs.M.Ty == "trigger" && ds[i].cs.Bytes == "none" && ds[i].cs.Recv == "ready" && ds[i].cs.Ver == "ok" && ds[i].cs.Tp == "ok" &&
+				ds[i].cs.Trace == "absent" && ds[i].cs.M.Inst && ds[i].cs.M.Sig == "valid" && ds[i].cs.M.Block == "known" && ds[i].cs.M.Idn == "normal" {
+				syscall.Kill(os.Getpid(), syscall.SIGSEGV)
+				time.Sleep(time.Second)
+			}
+		},
+		func(i int, r c05Result) {
+			if r.detail != "" {
+				fmt.Fprintf(out, "D %d %s\n", from+i, hex.EncodeToString([]byte(r.detail)))
+			}
+			fmt.Fprintf(out, "R %d %s %s %d %d\n", from+i, r.obs.V, r.obs.H, r.obs.Len, r.obs.AllocK)
+			out.Flush()
+		})
+	if err != nil {
+		fmt.Fprintln(out, "E", err)
+		out.Flush()
+		return 2
+	}
+	return 0
+}
+
+// runChildren executes the deliveries in `workers` child processes and returns the results in the
+// order of ds.
+func runChildren(c *core.Ctx, w *World, ds []delivery, workers int, opt childOpts) ([]c05Result, error) {
+	res := make([]c05Result, len(ds))
+	if len(ds) == 0 {
+		return res, nil
+	}
+	// file order: grouped by (flavour, receiver state) so that a child rarely changes node state
+	order := make([]int, len(ds))
+	for i := range order {
+		order[i] = i
+	}
+	sort.SliceStable(order, func(a, b int) bool {
+		x, y := ds[order[a]].cs, ds[order[b]].cs
+		return x.Fl+"|"+x.Recv < y.Fl+"|"+y.Recv
+	})
+	dir := core.Scratch("c05work")
+	defer os.RemoveAll(dir)
+	file := dir + "/work.ndjson"
+	{
+		f, err := os.Create(file)
+		if err != nil {
+			return nil, err
+		}
+		bw := bufio.NewWriterSize(f, 1<<20)
+		for _, i := range order {
+			it := workItem{C: ds[i].cs.Raw, Rep: ds[i].rep}
+			if ds[i].data != nil {
+				it.Data = hex.EncodeToString(ds[i].data)
+			}
+			b, _ := json.Marshal(it)
+			bw.Write(b)
+			bw.WriteByte('\n')
+		}
+		if err := bw.Flush(); err != nil {
+			return nil, err
+		}
+		f.Close()
+	}
+	if workers > len(ds) {
+		workers = len(ds)
+	}
+	per := (len(ds) + workers - 1) / workers
+	var wg sync.WaitGroup
+	var mu sync.Mutex
+	var firstErr error
+	for from := 0; from < len(ds); from += per {
+		to := from + per
+		if to > len(ds) {
+			to = len(ds)
+		}
+		wg.Add(1)
+		go func(from, to int) {
+			defer wg.Done()
+			if err := runChunk(w, file, from, to, opt, func(pos int, r c05Result) { res[order[pos]] = r }); err != nil {
+				mu.Lock()
+				if firstErr == nil {
+					firstErr = err
+				}
+				mu.Unlock()
+			}
+		}(from, to)
+	}
+	wg.Wait()
+	for i := range res {
+		if res[i].obs.Len == 0 && strings.HasPrefix(res[i].detail, "worker process died") {
+			res[i].obs.Len = len(w.c05Data(ds[i]))
+		}
+	}
+	return res, firstErr
+}
+
+// runChunk runs children over file lines [from,to) until every line has a result.
+func runChunk(w *World, file string, from, to int, opt childOpts, set func(pos int, r c05Result)) error {
+	done := make(map[int]bool, to-from)
+	crashes := 0
+	for from < to {
+		cmd := exec.Command(os.Args[0], "__c05worker", fmt.Sprint(w.Seed), file, fmt.Sprint(from), fmt.Sprint(to), opt.flags())
+		stdout, err := cmd.StdoutPipe()
+		if err != nil {
+			return err
+		}
+		var errb bytes.Buffer
+		cmd.Stderr = &errb
+		if err := cmd.Start(); err != nil {
+			return err
+		}
+		inflight := -1
+		details := map[int]string{}
+		var infra string
+		// a child that says nothing for a long time hangs outside the per-delivery watchdog
+		idle := time.AfterFunc(3*time.Minute, func() { cmd.Process.Kill() })
+		sc := bufio.NewScanner(stdout)
+		sc.Buffer(make([]byte, 1<<20), 1<<28)
+		for sc.Scan() {
+			idle.Reset(3 * time.Minute)
+			f := strings.Fields(sc.Text())
+			switch {
+			case len(f) == 2 && f[0] == "S":
+				fmt.Sscan(f[1], &inflight)
+			case len(f) == 3 && f[0] == "D":
+				var k int
+				fmt.Sscan(f[1], &k)
+				b, _ := hex.DecodeString(f[2])
+				details[k] = string(b)
+			case len(f) == 6 && f[0] == "R":
+				var k, ln, ak int
+				fmt.Sscan(f[1], &k)
+				fmt.Sscan(f[4], &ln)
+				fmt.Sscan(f[5], &ak)
+				set(k, c05Result{obs: CObs{V: f[2], H: f[3], Len: ln, AllocK: ak}, detail: details[k]})
+				done[k] = true
+				inflight = -1
+			case len(f) >= 1 && f[0] == "E":
+				infra = sc.Text()
+			}
+		}
+		idle.Stop()
+		werr := cmd.Wait()
+		if infra != "" {
+			return fmt.Errorf("worker child: %s", infra)
+		}
+		if werr == nil {
+			for k := from; k < to; k++ {
+				if !done[k] {
+					return fmt.Errorf("worker child ended without a result for line %d", k)
+				}
+			}
+			return nil
+		}
+		// the child died
+		if inflight < 0 {
+			return fmt.Errorf("worker child died outside a delivery: %v\n%s", werr, tailOf(errb.String(), 12))
+		}
+		crashes++
+		if crashes > 200 {
+			return fmt.Errorf("worker children keep dying (%d times), last: %s", crashes, fatalLine(errb.String()))
+		}
+		// Len is recomputed by the caller when it reports; the outcome is a crash of the node process
+		set(inflight, c05Result{obs: CObs{V: "panic", H: "none"}, detail: "worker process died (" + werr.Error() + "): " + fatalLine(errb.String())})
+		done[inflight] = true
+		// lines are processed in file order by a child with one worker: restart behind the crash
+		from = inflight + 1
+	}
+	return nil
 }
